@@ -282,6 +282,7 @@ def explore(ctx, res, replay=None):
         literal_sweep(ctx, res)
     # ---- programs -----------------------------------------------------------------------------
     srcs = list(gen_prog.small_programs())
+    extra_ = gen_prog.extra_programs()
     nrand = 40 if quick else 400
     big = pid == 'C20'
     deep = pid == 'C19'
@@ -289,6 +290,7 @@ def explore(ctx, res, replay=None):
         o = gen_prog.Opts(canonical=rng.random() < 0.6, share_lines=0.5 if k % 5 == 2 else 0.0, max_defs=3 if k % 5 == 2 else 3, big_consts=0.35 if big else 0.02,
                           p_call=0.9 if deep else 0.6, allow_diverge=0.05)
         srcs.append(gen_prog.ProgGen(rng, o).program()[:2])
+    srcs += extra_
     # the machine ends inside a called program (STOP with pending calls): the end must be absorbing (C17), memory must
     # still be exactly the live frames (C19), the debugged run must end like the uninterrupted one (C05)
     for s_ in ('PROGRAM inner IN a OUT r DO\n  r := a + 1;\n  STOP\nEND\nPROGRAM outer IN b OUT s DO\n  t := b + 2;\n  s := RUN inner WITH t END\nEND\nx0 := 5;\nx1 := RUN outer WITH x0 END;\nx2 := 7\n',
